@@ -186,15 +186,18 @@ func c01r1(c *an.Ctx) {
 func c01r2(c *an.Ctx) {
 	a := A(c)
 	msgSend := c.Fn("drpcstream", "(*Stream).MsgSend")
-	rawWrite := a.obj("drpcstream", "(*Stream).rawWriteLocked")
 	rawFlush := a.obj("drpcstream", "(*Stream).rawFlushLocked")
 	manual := a.field("drpcstream", "Options", "ManualFlush")
 	// MsgSend: every return either yields rawFlushLocked's result, or a provably
 	// non-nil error, or is nil under ManualFlush==true.
 	wrote := false
-	for _, cs := range an.CallsTo(msgSend, false, rawWrite) {
-		_ = cs
-		wrote = true
+	loops := frameLoopFns(c)
+	for _, fn := range extendedBody(msgSend) {
+		for _, l := range loops {
+			if fn == l {
+				wrote = true
+			}
+		}
 	}
 	c.Check(wrote, "(*Stream).MsgSend | calls rawWriteLocked", c.P.Pos(msgSend.Pos()), "message is written", "MsgSend no longer writes the message through rawWriteLocked")
 	nret := 0
@@ -204,7 +207,7 @@ func c01r2(c *an.Ctx) {
 		nret++
 		key := fmt.Sprintf("(*Stream).MsgSend | return %s", describeRet(v))
 		switch {
-		case v == nil || an.IsNilConst(v):
+		case knownNilCase(v, rc):
 			ok := false
 			for _, g := range rc.Guards {
 				if g.True && isLoadOfField(g.Cond, manual) {
@@ -498,21 +501,182 @@ func c01r4(c *an.Ctx) {
 	}
 	c.Floor("packetBuffer state accesses", 1, nAcc)
 
-	// (b) Put: after publishing the data, returns only once neither set nor held
+	// (b)-(d) decided by one automaton per method: the state is what the path KNOWS about set / held / err since
+	// the knowledge was last invalidated (cond.Wait and any lock operation let other goroutines change the
+	// buffer). A test of a field teaches its value on each side, a store of a constant sets it. So the rule does
+	// not care how the wait loops are written (one loop or two, flags, a helper with a predicate, the order of the
+	// conjuncts): it asks what is known where the state is changed.
+	lockOps := func(cc *ssa.CallCommon) bool {
+		_, ok := pl.LT.OpOf(cc)
+		return ok
+	}
+	fieldOfLoad := func(v ssa.Value) *types.Var {
+		for _, f := range []*types.Var{fSet, fHeld, fErr} {
+			if isLoadOfField(v, f) {
+				return f
+			}
+		}
+		return nil
+	}
+	// contradicts: the path already knows a different value for key (nothing invalidated it since): this side of the test is infeasible
+	contradicts := func(st, key, val string) bool {
+		for _, v := range []string{"T", "F", "Z", "N"} {
+			if v != val && hasTag(st, key+"="+v) {
+				return true
+			}
+		}
+		return false
+	}
+	setK := func(st, key, val string) string {
+		for _, v := range []string{"T", "F", "Z", "N"} {
+			st = delTag(st, key+"="+v)
+		}
+		if val == "" {
+			return st
+		}
+		return addTag(st, key+"="+val)
+	}
+	// The buffer's invariants, which hold whenever the mutex is acquired or re-acquired (they are established by
+	// the obligations I1/I2 below, checked at every store): err != nil => !set, and held => set. A test made while
+	// the critical section has not yet stored to the state therefore teaches more than the tested field.
+	// "dirty" marks a critical section that has stored since it last (re)acquired the mutex.
+	derive := func(st string) (string, bool) {
+		if hasTag(st, "dirty") {
+			return st, true
+		}
+		for i := 0; i < 3; i++ {
+			type imp struct{ ifK, ifV, thenK, thenV string }
+			for _, m := range []imp{{"err", "N", fSet.Name(), "F"}, {fSet.Name(), "T", "err", "Z"}, {fSet.Name(), "F", fHeld.Name(), "F"}, {fHeld.Name(), "T", fSet.Name(), "T"}} {
+				if hasTag(st, m.ifK+"="+m.ifV) {
+					if contradicts(st, m.thenK, m.thenV) {
+						return st, false
+					}
+					st = setK(st, m.thenK, m.thenV)
+				}
+			}
+		}
+		return st, true
+	}
+	boolTest := func(cond ssa.Value) (f *types.Var, onTrue bool, ok bool) {
+		c2, neg := an.StripNot(cond)
+		if fl := fieldOfLoad(c2); fl != nil && fl.Origin() != fErr.Origin() {
+			return fl, !neg, true
+		}
+		if b, isB := c2.(*ssa.BinOp); isB && (b.Op == token.EQL || b.Op == token.NEQ) {
+			x, y := b.X, b.Y
+			if _, isC := x.(*ssa.Const); isC {
+				x, y = y, x
+			}
+			cst, isC := an.Resolve(y).(*ssa.Const)
+			fl := fieldOfLoad(x)
+			if isC && cst.Value != nil && fl != nil && fl.Origin() != fErr.Origin() {
+				want := cst.Value.String() == "true"
+				val := (b.Op == token.EQL) == want // value of the field when the comparison is true
+				return fl, val != neg, true
+			}
+		}
+		return nil, false, false
+	}
+	knowledge := func(fn *ssa.Function) *an.FlowResult {
+		flow := &an.Flow{Fn: fn, Inline: an.InlineSamePackage(fn), Init: []string{""},
+			Step: func(st string, in ssa.Instruction) []string {
+				switch x := in.(type) {
+				case ssa.CallInstruction:
+					if an.IsCallTo(x.Common(), condWait) || lockOps(x.Common()) {
+						if _, isDefer := in.(*ssa.Defer); isDefer {
+							return nil
+						}
+						if hasTag(st, "published") {
+							return []string{"published"}
+						}
+						if st == "" {
+							return nil
+						}
+						return []string{""}
+					}
+				case *ssa.Store:
+					fv := an.PathOf(x.Addr).Last()
+					if fv == nil {
+						return nil
+					}
+					switch fv.Origin() {
+					case fData.Origin():
+						if !an.IsNilConst(x.Val) {
+							return []string{addTag(st, "published")}
+						}
+					case fSet.Origin(), fHeld.Origin():
+						val := ""
+						if cst, ok := x.Val.(*ssa.Const); ok && cst.Value != nil {
+							if cst.Value.String() == "true" {
+								val = "T"
+							} else {
+								val = "F"
+							}
+						}
+						return []string{addTag(setK(st, fv.Name(), val), "dirty")}
+					case fErr.Origin():
+						val := ""
+						if an.IsNilConst(x.Val) {
+							val = "Z"
+						}
+						return []string{addTag(setK(st, "err", val), "dirty")}
+					}
+				}
+				return nil
+			},
+			Branch: func(st string, br *ssa.If, idx int) (string, bool) {
+				if x, trueNonNil, ok := nilTestOf(br.Cond); ok {
+					if f := fieldOfLoad(x); f != nil && f.Origin() == fErr.Origin() {
+						val := "Z"
+						if (idx == 0) == trueNonNil {
+							val = "N"
+						}
+						if contradicts(st, "err", val) {
+							return st, false
+						}
+						return derive(setK(st, "err", val))
+					}
+					return st, true
+				}
+				if f, onTrue, ok := boolTest(br.Cond); ok {
+					val := "F"
+					if (idx == 0) == onTrue {
+						val = "T"
+					}
+					if contradicts(st, f.Name(), val) {
+						return st, false
+					}
+					return derive(setK(st, f.Name(), val))
+				}
+				return st, true
+			},
+		}
+		return flow.Run()
+	}
+	allKnow := func(res *an.FlowResult, in ssa.Instruction, tags ...string) bool {
+		sts := res.Before(in)
+		if len(sts) == 0 {
+			return false
+		}
+		for _, st := range sts {
+			for _, t := range tags {
+				if !hasTag(st, t) {
+					return false
+				}
+			}
+		}
+		return true
+	}
+	setName, heldName := fSet.Name(), fHeld.Name()
+
+	// (b) Put: publishes only into an open, consumed buffer; returns after publishing only once neither set nor held
 	put := c.Fn("drpcstream", "(*packetBuffer).Put")
 	dataStores := fieldStores(put, fData)
 	if c.Floor("stores to pb.data in Put", 1, len(dataStores)) {
+		res := knowledge(put)
 		pub := dataStores[0]
-		// the store itself: after the wait for the previous packet and only if not closed
-		_, notClosed := guardedByNil(pub.Block(), fErr, true)
-		c.Check(notClosed, "(*packetBuffer).Put | publish guarded by err == nil", c.At(pub), "", "Put publishes data into a closed buffer (pb.err not tested)")
-		okSetTest := false
-		for _, ld := range fieldLoads(put, fSet) {
-			if an.InstrDominates(ld, pub) && inLoopWithCall(ld.Block(), condWait) {
-				okSetTest = true
-			}
-		}
-		c.Check(okSetTest, "(*packetBuffer).Put | waits for previous packet before publishing", c.At(pub), "", "Put overwrites a packet that has not been consumed (no wait loop on pb.set before the store)")
+		c.Check(allKnow(res, pub, "err=Z"), "(*packetBuffer).Put | publish guarded by err == nil", c.At(pub), "", "Put publishes data into a closed buffer (pb.err not known to be nil where the data is stored)")
+		c.Check(allKnow(res, pub, setName+"=F"), "(*packetBuffer).Put | waits for previous packet before publishing", c.At(pub), "", "Put overwrites a packet that has not been consumed (pb.set is not known to be false where the data is stored)")
 		setTrue := false
 		for _, st := range fieldStores(put, fSet) {
 			if cst, ok := st.Val.(*ssa.Const); ok && cst.Value != nil && cst.Value.String() == "true" && st.Block() == pub.Block() {
@@ -522,50 +686,110 @@ func c01r4(c *an.Ctx) {
 		c.Check(setTrue, "(*packetBuffer).Put | marks the buffer set when publishing", c.At(pub), "", "Put does not set pb.set=true together with the data")
 		n := 0
 		for _, ret := range an.Returns(put) {
-			if !an.CanReach(pub, ret) {
+			if !an.CanReach(pub, ret) || !res.Reachable(ret.Block()) {
 				continue
 			}
 			n++
-			ifSet, g1 := guardedByFieldLoadAfter(ret.Block(), fSet, false, pub)
-			ifHeld, g2 := guardedByFieldLoadAfter(ret.Block(), fHeld, false, pub)
-			ok := g1 && g2 && inLoopWithCall(ifSet.Block(), condWait) && inLoopWithCall(ifHeld.Block(), condWait)
-			c.Check(ok, "(*packetBuffer).Put | return after publish waits for !set && !held", c.At(ret), "",
+			okRet := true
+			for _, st := range res.Before(ret) {
+				if !hasTag(st, "published") {
+					continue // a way out that did not publish (closed buffer)
+				}
+				if !hasTag(st, setName+"=F") || !hasTag(st, heldName+"=F") {
+					okRet = false // the packet may not have been taken, or is still held by the decoder
+				}
+			}
+			c.Check(okRet, "(*packetBuffer).Put | return after publish waits for !set && !held", c.At(ret), "",
 				"Put can return while the consumer still holds (or has not taken) the lent buffer: the reader would overwrite bytes being decoded")
 		}
 		c.Floor("returns after publish in Put", 1, n)
 	}
 
-	// (c) Close: waits for !held before changing state; stores only when err == nil (first error wins)
+	// (c) Close: changes the state only when nobody holds the lent slice and no earlier error was recorded
 	cl := c.Fn("drpcstream", "(*packetBuffer).Close")
 	n := 0
-	for _, f := range []*types.Var{fErr, fData, fSet} {
-		for _, st := range fieldStores(cl, f) {
-			n++
-			ifHeld, g := guardedByFieldLoad(st.Block(), fHeld, false)
-			ok := g && inLoopWithCall(ifHeld.Block(), condWait)
-			c.Check(ok, "(*packetBuffer).Close | store pb."+f.Name()+" after waiting for !held", c.At(st), "",
-				"Close changes the buffer while a receiver still holds the lent slice")
-			_, first := guardedByNil(st.Block(), fErr, true)
-			c.Check(first, "(*packetBuffer).Close | store pb."+f.Name()+" only if err == nil", c.At(st), "", "Close overwrites an earlier close error (first error must win)")
+	{
+		res := knowledge(cl)
+		for _, f := range []*types.Var{fErr, fData, fSet} {
+			for _, st := range fieldStores(cl, f) {
+				n++
+				c.Check(allKnow(res, st, heldName+"=F"), "(*packetBuffer).Close | store pb."+f.Name()+" after waiting for !held", c.At(st), "",
+					"Close changes the buffer while a receiver still holds the lent slice")
+				// the error store itself teaches err != nil to the stores after it; what counts is what was known before the first store
+				first := allKnow(res, st, "err=Z") || (f.Origin() != fErr.Origin() && storeFollows(fieldStores(cl, fErr), st))
+				c.Check(first, "(*packetBuffer).Close | store pb."+f.Name()+" only if err == nil", c.At(st), "", "Close overwrites an earlier close error (first error must win)")
+			}
 		}
 	}
 	c.Floor("state stores in Close", 1, n)
 
-	// (d) Get: hands out data only when set (or err), marks held
+	// (d) Get: lends the buffer only when a packet is there and the buffer is open
 	get := c.Fn("drpcstream", "(*packetBuffer).Get")
 	n = 0
-	for _, st := range fieldStores(get, fHeld) {
-		n++
-		_, ok := guardedByNil(st.Block(), fErr, true)
-		okSet := false
-		for _, ld := range fieldLoads(get, fSet) {
-			if an.InstrDominates(ld, st) && inLoopWithCall(ld.Block(), condWait) {
-				okSet = true
-			}
+	{
+		res := knowledge(get)
+		for _, st := range fieldStores(get, fHeld) {
+			n++
+			c.Check(allKnow(res, st, setName+"=T", "err=Z"), "(*packetBuffer).Get | held=true only after waiting for set and err == nil", c.At(st), "", "Get lends the buffer without waiting for a packet / on a closed buffer")
 		}
-		c.Check(ok && okSet, "(*packetBuffer).Get | held=true only after waiting for set and err == nil", c.At(st), "", "Get lends the buffer without waiting for a packet / on a closed buffer")
+		// and every success return has marked the buffer held
+		for _, rc := range an.ReturnCases(get) {
+			if len(rc.Vals) < 2 || !(rc.Vals[1] == nil || an.IsNilConst(rc.Vals[1])) {
+				continue
+			}
+			if !res.Reachable(rc.Ret.Block()) {
+				continue
+			}
+			n++
+			c.Check(allKnow(res, rc.Ret, heldName+"=T"), "(*packetBuffer).Get | a successful Get has marked the buffer held", c.At(rc.Ret), "",
+				"Get can hand out the lent slice without marking it held: Close and Put no longer wait for the decoder, and the reader overwrites bytes being decoded")
+		}
 	}
 	c.Floor("held stores in Get", 1, n)
+
+	// (I1/I2) the invariants the knowledge above relies on are kept by every store, in every function of the package:
+	// set=true only on an open buffer; a close error is recorded together with set=false; held=true only on a set
+	// buffer; set=false only when the loan is over (held known false, or cleared in the same step)
+	nInv := 0
+	for _, fn := range fns {
+		stores := append(append(fieldStores(fn, fSet), fieldStores(fn, fHeld)...), fieldStores(fn, fErr)...)
+		if len(stores) == 0 {
+			continue
+		}
+		res := knowledge(fn)
+		sameBlockStore := func(st *ssa.Store, f *types.Var, want string) bool {
+			for _, o := range fieldStores(fn, f) {
+				if o.Block() != st.Block() {
+					continue
+				}
+				if cst, ok := o.Val.(*ssa.Const); ok && cst.Value != nil && cst.Value.String() == want {
+					return true
+				}
+			}
+			return false
+		}
+		for _, st := range stores {
+			fv := an.PathOf(st.Addr).Last()
+			cst, isC := st.Val.(*ssa.Const)
+			isTrue := isC && cst.Value != nil && cst.Value.String() == "true"
+			isFalse := isC && cst.Value != nil && cst.Value.String() == "false"
+			switch {
+			case fv.Origin() == fSet.Origin() && isTrue:
+				nInv++
+				c.Check(allKnow(res, st, "err=Z"), an.ShortFunc(fn)+" | set=true only on an open buffer (err known nil)", c.At(st), "", "a packet can be published into a closed buffer: a receiver woken by Close would find data")
+			case fv.Origin() == fSet.Origin() && isFalse:
+				nInv++
+				c.Check(allKnow(res, st, heldName+"=F") || sameBlockStore(st, fHeld, "false"), an.ShortFunc(fn)+" | set=false only when the loan is over", c.At(st), "", "the slot is emptied while the decoder still holds the lent slice")
+			case fv.Origin() == fHeld.Origin() && isTrue:
+				nInv++
+				c.Check(allKnow(res, st, setName+"=T"), an.ShortFunc(fn)+" | held=true only on a set buffer", c.At(st), "", "the buffer is marked lent although no packet is in it")
+			case fv.Origin() == fErr.Origin() && !an.IsNilConst(st.Val):
+				nInv++
+				c.Check(sameBlockStore(st, fSet, "false") || allKnow(res, st, setName+"=F"), an.ShortFunc(fn)+" | a close error is recorded together with set=false", c.At(st), "", "the buffer can be closed while it still announces a packet")
+			}
+		}
+	}
+	c.Floor("invariant-relevant stores of packetBuffer", 1, nInv)
 
 	// (e) every state change is followed by a Broadcast before the mutex is released or waited on
 	for _, name := range []string{"(*packetBuffer).Put", "(*packetBuffer).Get", "(*packetBuffer).Done", "(*packetBuffer).Close"} {
@@ -613,6 +837,17 @@ func c01r4(c *an.Ctx) {
 		}
 		c.Check(!bad, name+" | state change followed by Broadcast", pos, "", "a packetBuffer state change can reach a wait/return without cond.Broadcast: waiters are never woken")
 	}
+}
+
+// storeFollows: st comes after one of the given stores in the same block (Close's data/set stores follow
+// its err store only textually in some layouts).
+func storeFollows(errStores []*ssa.Store, st *ssa.Store) bool {
+	for _, e := range errStores {
+		if e.Block() == st.Block() {
+			return true
+		}
+	}
+	return false
 }
 
 // guardedByNil: block dominated by an edge on which `X.field == nil` has the given truth.
